@@ -1,11 +1,17 @@
 package main
 
 import (
+	"context"
 	"encoding/json"
 	"fmt"
+	"go/types"
 	"os"
+	"os/exec"
 	"path/filepath"
+	"regexp"
+	"strconv"
 	"strings"
+	"time"
 )
 
 // makeReplay writes the replay file of a failed obligation and, when the solver
@@ -162,9 +168,144 @@ func parseSexps(src string) []*sexp {
 	return out
 }
 
+// replayModel replays a counterexample of a no-panic obligation against the real function: the function is called with
+// the model's argument values inside the real package (a test file injected with `go test -overlay`, nothing is written
+// to the repository) and the violation counts as reproduced if the call panics.  Supported: package-level functions
+// whose parameters are integers, booleans, strings or byte slices (strings outside the native string theory are
+// uninterpreted, so only their length is taken from the model; the content is filler).  Everything else is reported
+// without replay (no-failing-input-found).
 func (c *Ctx) replayModel(id string, o *Obligation, model map[string]string) (bool, string, string) {
-	return false, "", ""
+	if o.Kind != "nopanic" && !strings.Contains(o.Name, "#nopanic[") {
+		return false, "", ""
+	}
+	fn := c.findFunc(o.Fn)
+	if fn == nil || fn.Signature.Recv() != nil || fn.Parent() != nil || fn.Pkg == nil {
+		return false, "", ""
+	}
+	pkgPath := fn.Pkg.Pkg.Path()
+	if !strings.HasPrefix(pkgPath, repoModule) {
+		return false, "", ""
+	}
+	var args []string
+	imports := map[string]bool{}
+	for _, p := range fn.Params {
+		v, ok := model[p.Name()]
+		var lit string
+		switch t := p.Type().Underlying().(type) {
+		case *types.Basic:
+			switch {
+			case t.Info()&types.IsInteger != 0:
+				if !ok {
+					return false, "", ""
+				}
+				n := smtInt(v)
+				if n == "" {
+					return false, "", ""
+				}
+				lit = types.TypeString(p.Type(), func(pk *types.Package) string { return "" }) + "(" + n + ")"
+				if strings.Contains(lit, ".") {
+					return false, "", ""
+				}
+			case t.Info()&types.IsBoolean != 0:
+				if v != "true" && v != "false" {
+					return false, "", ""
+				}
+				lit = v
+			case t.Info()&types.IsString != 0:
+				sv, ok2 := modelString(model, p.Name())
+				if !ok2 {
+					return false, "", ""
+				}
+				lit = strconvQuote(sv)
+			default:
+				return false, "", ""
+			}
+		case *types.Slice:
+			if b, isB := t.Elem().Underlying().(*types.Basic); !isB || b.Kind() != types.Byte {
+				return false, "", ""
+			}
+			sv, ok2 := modelString(model, p.Name())
+			if !ok2 {
+				return false, "", ""
+			}
+			lit = "[]byte(" + strconvQuote(sv) + ")"
+		default:
+			return false, "", ""
+		}
+		args = append(args, lit)
+	}
+	_ = imports
+	var b strings.Builder
+	fmt.Fprintf(&b, "package %s\n\nimport \"testing\"\n\n", fn.Pkg.Pkg.Name())
+	fmt.Fprintf(&b, "// generated by govc: replay of %s\nfunc TestVerifReplayModel(t *testing.T) {\n", o.Name)
+	b.WriteString("\tdefer func() {\n\t\tif r := recover(); r != nil {\n\t\t\tt.Fatalf(\"VERIF-REPRODUCED: panic: %v\", r)\n\t\t}\n\t}()\n")
+	fmt.Fprintf(&b, "\t%s(%s)\n}\n", fn.Name(), strings.Join(args, ", "))
+	test := b.String()
+	work := filepath.Join(verifDir, ".work", id+"-replay")
+	os.MkdirAll(work, 0o755)
+	src := filepath.Join(work, sanitize(o.Name)+"_test.go")
+	if len(src) > 200 {
+		src = filepath.Join(work, fmt.Sprintf("replay%d_test.go", len(o.Name)))
+	}
+	os.WriteFile(src, []byte(test), 0o644)
+	rel := strings.TrimPrefix(strings.TrimPrefix(pkgPath, repoModule), "/")
+	target := filepath.Join(c.repo, rel, "zz_verif_replay_test.go")
+	ov := src + ".overlay.json"
+	js, _ := json.Marshal(map[string]interface{}{"Replace": map[string]string{target: src}})
+	os.WriteFile(ov, js, 0o644)
+	ctx, cancel := context.WithTimeout(context.Background(), 5*time.Minute)
+	defer cancel()
+	cmd := exec.CommandContext(ctx, "go", "test", "-overlay", ov, "-vet=off", "-count=1", "-timeout", "60s", "-run", "^TestVerifReplayModel$", "./"+rel)
+	cmd.Dir = c.repo
+	cmd.Env = append(os.Environ(), "GOFLAGS=-mod=mod", "GOPROXY=off", "GOSUMDB=off", "GOTOOLCHAIN=local")
+	outb, _ := cmd.CombinedOutput()
+	out := string(outb)
+	return strings.Contains(out, "VERIF-REPRODUCED"), out, test
 }
+
+func smtInt(v string) string {
+	v = strings.TrimSpace(v)
+	if strings.HasPrefix(v, "(-") && strings.HasSuffix(v, ")") {
+		n := strings.TrimSpace(v[2 : len(v)-1])
+		if _, err := strconv.ParseInt(n, 10, 64); err == nil {
+			return "-" + n
+		}
+		return ""
+	}
+	if _, err := strconv.ParseUint(v, 10, 64); err == nil {
+		return v
+	}
+	return ""
+}
+
+// modelString: the value of a string-sorted input: its literal in the native theory, otherwise filler of the model's length.
+func modelString(model map[string]string, name string) (string, bool) {
+	if v, ok := model[name]; ok && strings.HasPrefix(v, "\"") && strings.HasSuffix(v, "\"") && len(v) >= 2 {
+		return smtUnquote(v), true
+	}
+	if l, ok := model[name+"#len"]; ok {
+		n, err := strconv.Atoi(smtInt(l))
+		if err != nil || n < 0 || n > 1<<20 {
+			return "", false
+		}
+		return strings.Repeat("A", n), true
+	}
+	return "", false
+}
+
+func smtUnquote(v string) string {
+	v = strings.ReplaceAll(v[1:len(v)-1], "\"\"", "\"")
+	re := regexp.MustCompile(`\\u\{([0-9a-fA-F]+)\}`)
+	return re.ReplaceAllStringFunc(v, func(m string) string {
+		n, _ := strconv.ParseInt(re.FindStringSubmatch(m)[1], 16, 32)
+		if n < 256 {
+			return string([]byte{byte(n)}) // strings model byte sequences: one character = one byte
+		}
+		return string(rune(n))
+	})
+}
+
+func strconvQuote(s string) string { return strconv.Quote(s) }
 
 func cmdReplay(args []string) int {
 	if len(args) < 1 {
